@@ -134,6 +134,31 @@ static _Bool rt_slice_eq(fat_tok a, fat_tok b) {
   }
   return 1;
 }
+/* <[T]>::split_off(_mut)(&mut self, range: OneSidedRange) (unstable build): ..n / ..=n take the front, n.. takes the back */
+static option_pstok rt_split_off(fat_tok *self, user_R_t r) {
+  option_pstok o; o.disc = 0; o.v.ptr = EMPTY; o.v.len = 0;
+  size_t n; _Bool front;
+  if (r.sdisc == 2 && r.edisc == 1) { n = r.eval; front = 1; }
+  else if (r.sdisc == 2 && r.edisc == 0) { if (r.eval == (size_t)-1) return o; n = r.eval + 1; front = 1; }
+  else if (r.sdisc == 0 && r.edisc == 2) { n = r.sval; front = 0; }
+  else { rt_panic(); return o; }
+  if (n > self->len) return o;
+  o.disc = 1;
+  if (front) { o.v.ptr = self->ptr; o.v.len = n; self->ptr += n; self->len -= n; }
+  else { o.v.ptr = self->ptr + n; o.v.len = self->len - n; self->len = n; }
+  return o;
+}
+/* <[MaybeUninit<T>]>::write_clone_of_slice (unstable build): lengths must match; clones in order; if a clone
+   panics the already written prefix is dropped (documented contract of libcore's guard) */
+static fat_tok rt_write_clone_of_slice(fat_tok dst, fat_tok src) {
+  if (dst.len != src.len) { rt_panic(); return dst; }
+  for (size_t i = 0; i < src.len; i++) {
+    unsigned p0 = PANICS; tok_t c = user_clone(&src.ptr[i]);
+    if (PANICS != p0) { fat_tok done = { dst.ptr, i }; rt_drop_in_place_slice(done); return dst; }
+    dst.ptr[i] = c;
+  }
+  return dst;
+}
 static tok_t rt_read(tok_t *p) { return *p; }
 static tok_t *rt_write(tok_t *p, tok_t v) { *p = v; return p; }
 static tok_t rt_replace(tok_t *p, tok_t v) { tok_t old = *p; *p = v; return old; }
